@@ -170,7 +170,7 @@ def _codec(fv):
         fn = _S().visit(_copy.deepcopy(fn))
         ast.fix_missing_locations(fn)
     ren = {n: "p%d" % i for i, n in enumerate(names)}
-    w = sym.SymWalker(fn, sym.Canon(None, None))
+    w = sym.SymWalker(fn, sym.Canon(None, None), ignore_asserts=True)
     w.run()
     from sa.ct import fmt_formula
     out = set()
